@@ -419,6 +419,19 @@ Definition spec_update (k : string) (o : aop) (ps : list nat) (vs : list sx) (d 
   | None => NotFixed "inexact"
   end.
 
+(* the form of the source, independent of what is addressed: None = fine *)
+Definition source_form_soft (t : target) (x : mat sx) (src : source) : option string :=
+  match src with
+  | SSc _ _ => None
+  | SVec _ col vs =>
+      match t with
+      | T2 _ _ => Some "2d-vector-source"
+      | _ => if Nat.ltb (List.length vs) 2 then Some "one-element-vector"
+             else if negb (whole_shape_ok t x col) then Some "whole-shape"
+             else None
+      end
+  end.
+
 Definition spec_step (k : string) (x : mat sx) (s : stmt) : outcome :=
   match s with
   | SRead _ => NotFixed "read"
@@ -429,26 +442,24 @@ Definition spec_step (k : string) (x : mat sx) (s : stmt) : outcome :=
       else if andb (is_set o) (match t with TWhole => true | _ => false end) then NotFixed "whole-set"
       else if andb (negb (is_set o)) (negb (is_numeric k)) then NotFixed "op-kind"
       else
-        match target_status (mrows x) (mcols x) t with
-        | CSoft w => NotFixed w
-        | COut => MustErr
-        | CValid ps =>
-            match src with
-            | SSc _ e =>
-                if andb (negb (is_set o)) (negb (nodupb ps)) then NotFixed "repeated-index"
-                else spec_update k o ps (repeat e (List.length ps)) (mdata x)
-            | SVec _ col vs =>
-                match t with
-                | T2 _ _ => NotFixed "2d-vector-source"
-                | _ =>
-                    if Nat.ltb (List.length vs) 2 then NotFixed "one-element-vector"
-                    else if negb (whole_shape_ok t x col) then NotFixed "whole-shape"
-                    else if Nat.ltb (List.length vs) (List.length ps) then MustErr
-                    else if Nat.ltb (List.length ps) (List.length vs) then NotFixed "long-source"
-                    else if negb (nodupb ps) then NotFixed "repeated-index"
-                    else spec_update k o ps vs (mdata x)
-                end
-            end
+        match source_form_soft t x src with
+        | Some w => NotFixed w
+        | None =>
+          match target_status (mrows x) (mcols x) t with
+          | CSoft w => NotFixed w
+          | COut => MustErr
+          | CValid ps =>
+              match src with
+              | SSc _ e =>
+                  if andb (negb (is_set o)) (negb (nodupb ps)) then NotFixed "repeated-index"
+                  else spec_update k o ps (repeat e (List.length ps)) (mdata x)
+              | SVec _ col vs =>
+                  if Nat.ltb (List.length vs) (List.length ps) then MustErr
+                  else if Nat.ltb (List.length ps) (List.length vs) then NotFixed "long-source"
+                  else if negb (nodupb ps) then NotFixed "repeated-index"
+                  else spec_update k o ps vs (mdata x)
+              end
+          end
         end
   end.
 
@@ -518,31 +529,45 @@ Definition ab_rows (n : nat) (l : list bool) : list (option nat) :=
 (* the kernels for (mask, index vector) and (index vector, mask) exist for f64 only *)
 Definition mixed_ok (k : string) : bool := String.eqb k "f64".
 
+Definition mech_pos2 (k : string) (r c : nat) (ci cj : comp) : option (list (option nat)) :=
+  match ci, cj with
+  | CBad, _ => None
+  | _, CBad => None
+  | CA, CA => None                                                    (* todo!() *)
+  | CU l, CS w => Some (match chk c w with
+                        | None => [None]                              (* column_mut(c-1) before the loop *)
+                        | Some cc => col_outer r (dim_attempts r (CU l)) [Some cc] end)
+  | CB l, CS w => Some (match chk c w with
+                        | None => [None]
+                        | Some cc => col_outer r (dim_attempts r (CB l)) [Some cc] end)
+  | CU l, CB m => if mixed_ok k then Some (row_outer r (ub_rows r 0 l) (dim_attempts c (CB m))) else None
+  | CB l, CU m => if mixed_ok k then Some (row_outer r (dim_attempts r (CB l)) (dim_attempts c (CU m))) else None
+  | CB l, CA => Some (col_outer r (ab_rows r l) (dim_attempts c CA))
+  | CU l, CA => if String.eqb k "i128" then None                      (* impl_set_range_all_arms: no i128 arm *)
+                else Some (col_outer r (dim_attempts r (CU l)) (dim_attempts c CA))
+  | CA, cj => Some (col_outer r (dim_attempts r CA) (dim_attempts c cj))
+  | ci, CA => Some (col_outer r (dim_attempts r ci) (dim_attempts c CA))
+  | ci, cj => Some (row_outer r (dim_attempts r ci) (dim_attempts c cj))
+  end.
+
+(* x[[b]]: Assign1DB (all elements if b) *)
+Definition single_mask (i : ixc) : option bool := match i with IM [b] => Some b | _ => None end.
+(* x[[z],w]: MatrixAssignScalarScalar accepts the 1x1 index matrix *)
+Definition single_vec_scalar (i j : ixc) : option (Z * Z) :=
+  match i, j with IV [z], IS w => Some (z, w) | _, _ => None end.
+
 Definition mech_positions (k : string) (r c : nat) (t : target) : option (list (option nat)) :=
   match t with
   | TWhole => Some (map Some (seq 0 (r * c)))
-  | T1 (IM [b]) => Some (if b then map Some (seq 0 (r * c)) else [])      (* Assign1DB *)
-  | T1 i => match comp_of i with CBad => None | ci => Some (dim_attempts (r * c) ci) end
-  | T2 (IV [z]) (IS w) => Some [comb r (chk r z) (chk c w)]               (* MatrixAssignScalarScalar *)
+  | T1 i =>
+      match single_mask i with
+      | Some b => Some (if b then map Some (seq 0 (r * c)) else [])
+      | None => match comp_of i with CBad => None | ci => Some (dim_attempts (r * c) ci) end
+      end
   | T2 i j =>
-      match comp_of i, comp_of j with
-      | CBad, _ => None
-      | _, CBad => None
-      | CA, CA => None                                                    (* todo!() *)
-      | CU l, CS w => Some (match chk c w with
-                            | None => [None]                              (* column_mut(c-1) before the loop *)
-                            | Some cc => col_outer r (dim_attempts r (CU l)) [Some cc] end)
-      | CB l, CS w => Some (match chk c w with
-                            | None => [None]
-                            | Some cc => col_outer r (dim_attempts r (CB l)) [Some cc] end)
-      | CU l, CB m => if mixed_ok k then Some (row_outer r (ub_rows r 0 l) (dim_attempts c (CB m))) else None
-      | CB l, CU m => if mixed_ok k then Some (row_outer r (dim_attempts r (CB l)) (dim_attempts c (CU m))) else None
-      | CB l, CA => Some (col_outer r (ab_rows r l) (dim_attempts c CA))
-      | CU l, CA => if String.eqb k "i128" then None                             (* impl_set_range_all_arms: no i128 arm *)
-                    else Some (col_outer r (dim_attempts r (CU l)) (dim_attempts c CA))
-      | CA, cj => Some (col_outer r (dim_attempts r CA) (dim_attempts c cj))
-      | ci, CA => Some (col_outer r (dim_attempts r ci) (dim_attempts c CA))
-      | ci, cj => Some (row_outer r (dim_attempts r ci) (dim_attempts c cj))
+      match single_vec_scalar i j with
+      | Some (z, w) => Some [comb r (chk r z) (chk c w)]
+      | None => mech_pos2 k r c (comp_of i) (comp_of j)
       end
   end.
 
@@ -672,24 +697,34 @@ Definition agrees (sp : outcome) (m : option (bool * list (option sx))) (d : lis
   | _, _ => false
   end.
 
+(* identifiers of the known findings (known-findings.json) *)
+Definition id_opassign_scalar : string := "opassign-scalar-index-overwrites".
+Definition id_partial_write : string := "partial-write-before-error".
+Definition id_whole_short : string := "whole-opassign-short-source".
+Definition id_mask_rows_all : string := "mask-rows-all-off-by-one".
+Definition id_rows_ignored : string := "rows-ignored-with-column-mask".
+Definition id_mask_vector : string := "mask-vector-source-positional".
+Definition id_div_all : string := "div-assign-rows-all-divides-every-element".
+Definition id_not_implemented : string := "form-not-implemented".
+
 Definition kf_structural (o : aop) (t : target) (src : source) (n : nat) : option string :=
   match src with
   | SSc _ _ =>
       match o, t with
-      | OSet, T2 i IAll => if is_bmask i then Some "mask-rows-all-off-by-one" else None
-      | OSet, T2 i j => if andb (is_uvec i) (is_bmask j) then Some "rows-ignored-with-column-mask" else None
+      | OSet, T2 i IAll => if is_bmask i then Some id_mask_rows_all else None
+      | OSet, T2 i j => if andb (is_uvec i) (is_bmask j) then Some id_rows_ignored else None
       | OSet, _ => None
-      | _, T1 (IS _) => Some "opassign-scalar-index-overwrites"
-      | _, T1 (IM [_]) => Some "opassign-scalar-index-overwrites"
-      | _, T2 (IS _) IAll => Some "opassign-scalar-index-overwrites"
-      | ODiv, T2 i IAll => if is_uvec i then Some "div-assign-rows-all-divides-every-element" else None
+      | _, T1 (IS _) => Some id_opassign_scalar
+      | _, T1 (IM [_]) => Some id_opassign_scalar
+      | _, T2 (IS _) IAll => Some id_opassign_scalar
+      | ODiv, T2 i IAll => if is_uvec i then Some id_div_all else None
       | _, _ => None
       end
   | SVec _ _ vs =>
       match o, t with
-      | OSet, T1 i => if is_bmask i then Some "mask-vector-source-positional" else None
+      | OSet, T1 i => if is_bmask i then Some id_mask_vector else None
       | OSet, _ => None
-      | _, TWhole => if Nat.ltb (List.length vs) n then Some "whole-opassign-short-source" else None
+      | _, TWhole => if Nat.ltb (List.length vs) n then Some id_whole_short else None
       | _, _ => None
       end
   end.
@@ -710,13 +745,32 @@ Definition kf_class (k : string) (x : mat sx) (s : stmt) : option string :=
                    match mech_step k x s with
                    | Some (false, d') =>
                        if andb (all_known d') (sx_pat_match d' (mdata x))
-                       then (match sp with OkNew _ => Some "form-not-implemented" | _ => None end)
-                       else Some "partial-write-before-error"
+                       then (match sp with OkNew _ => Some id_not_implemented | _ => None end)
+                       else Some id_partial_write
                    | _ => None
                    end
                end
       end
   end.
+
+Definition id_i64 : string := "i64".
+
+(* one witness per finding: kind, matrix, statement *)
+Definition zs (l : list Z) : list sx := map Zx l.
+Definition f64_1_6 : list sx := zs [4607182418800017408; 4611686018427387904; 4613937818241073152;
+                                    4616189618054758400; 4617315517961601024; 4618441417868443648]%Z.
+Definition w_opassign_scalar := ("i64", Mat 1 3 (zs [1; 2; 3]%Z), SAsg OAdd (T1 (IS 1)) (SSc "i64" (Zx 5))).
+Definition w_partial_write := ("i64", Mat 1 3 (zs [15; 3; 3]%Z), SAsg OSet (T1 (IV [1; 5]%Z)) (SSc "i64" (Zx 7))).
+Definition w_whole_short := ("i64", Mat 1 4 (zs [9; 9; 9; 9]%Z), SAsg OAdd TWhole (SVec "i64" false (zs [1; 1; 1]%Z))).
+Definition w_mask_rows_all :=
+  ("i64", Mat 2 3 (zs [1; 4; 2; 5; 3; 6]%Z), SAsg OSet (T2 (IM [false; true]) IAll) (SSc "i64" (Zx 18))).
+Definition w_rows_ignored :=
+  ("f64", Mat 3 2 f64_1_6, SAsg OSet (T2 (IV [3; 1]%Z) (IM [false; true])) (SSc "f64" (Zx 4619567317775286272))).
+Definition w_mask_vector :=
+  ("i64", Mat 1 4 (zs [1; 2; 3; 4]%Z), SAsg OSet (T1 (IM [true; false; false; true])) (SVec "i64" false (zs [50; 60]%Z))).
+Definition w_div_all := ("i64", Mat 3 1 (zs [8; 6; 4]%Z), SAsg ODiv (T2 (IV [1; 2]%Z) IAll) (SSc "i64" (Zx 2))).
+Definition w_not_implemented :=
+  ("i64", Mat 2 2 (zs [1; 2; 3; 4]%Z), SAsg OAdd (T2 (IS 1) (IS 2)) (SSc "i64" (Zx 5))).
 
 (* ------------------------------------------------------------------ *)
 (* decoding the case and the session observation                        *)
@@ -928,6 +982,9 @@ Definition judge_case (cs : case) (steps : list stepobs) : sx :=
       then summarize (judge_steps (c_kind cs) (c_x cs) (c_stmts cs) os)
       else v_bad "definition" (encode_kval (KM (c_kind cs) (c_x cs)))
   end.
+
+(* the line the driver feeds to the judge: (<case> <observation>) *)
+Definition session_line (c : sx) (steps : list sx) : sx := Lx [c; Lx (Ax "session" :: steps)].
 
 Definition judge_assign (x : sx) : sx :=
   match x with
